@@ -15,4 +15,28 @@ def handleSubTopo (args : List String) : String :=
     | some r => s!"{Proto.showInts r.1.2} / {Proto.showInts r.2}"
   | _, _ => "bad-args"
 
+/-- `gsubtree pids=.. n=k` → `new_pid / mapping` of the GENERATED `get_subtree_impl` on a tree object (ids = positions) -/
+def handleSubtree (args : List String) : String :=
+  match Proto.argInts args "pids", Proto.argInt args "n" with
+  | some pids, some n =>
+    let ids := (List.range pids.length).map (fun (k : Nat) => (k : Int))
+    match get_subtree_impl (2 * pids.length + 3) ids pids n with
+    | none => "E"
+    | some r => s!"{Proto.showInts r.1.2} / {Proto.showInts r.2}"
+  | _, _ => "bad-args"
+
+/-- `gtosub pids=.. rm=..` → `to_subtree(tree, rm)` at the topology level with the GENERATED `propagate_removal` and `to_sub_topology`:
+the removal list is written into the id column as `REMOVAL`, propagated to the descendants, then compacted -/
+def handleToSub (args : List String) : String :=
+  match Proto.argInts args "pids", Proto.argInts args "rm" with
+  | some pids, some rm =>
+    let marked := (List.range pids.length).map (fun (k : Nat) => if rm.contains (k : Int) then (-2 : Int) else (k : Int))
+    match propagate_removal (2 * pids.length + 3) (marked, pids) with
+    | none => "E"
+    | some (newIds, ps) =>
+      match to_sub_topology (newIds, ps) with
+      | none => "E"
+      | some r => s!"{Proto.showInts r.1.2} / {Proto.showInts r.2}"
+  | _, _ => "bad-args"
+
 end AlgoRun
